@@ -291,8 +291,13 @@ Section Rowwise.
   Qed.
 
   (* ---------- batch norm, ghost batch norm ---------- *)
-  Lemma bn_eval_rowwise : forall ps, acts_rowwise (bn_eval O ps) (bn_eval_row O ps).
-  Proof. intros ps X. reflexivity. Qed.
+  (* the broadcast over the batch axis makes eval-mode batch norm a per-row map *)
+  Lemma bn_eval_rowwise : forall mean var w b, acts_rowwise (bn_eval O mean var w b) (bn_eval_row O mean var w b).
+  Proof.
+    intros mean var w b X. unfold bn_eval, bn_eval_row.
+    rewrite !zipw_repeat_r by (rewrite ?zipw_length, ?map_length, ?repeat_length; lia).
+    rewrite !map_map. reflexivity.
+  Qed.
 
   Lemma cdiv_pos : forall a b, 0 < a -> 0 < b -> 0 < cdiv a b.
   Proof.
@@ -1072,7 +1077,9 @@ Section Causality.
     Hypothesis add_0_l : forall x, oadd O (o0 O) x = x.
     Hypothesis mul_0_l : forall x, omul O (o0 O) x = o0 O.
     Hypothesis div_0_l : forall x, odiv O (o0 O) x = o0 O.
-    Hypothesis H_mask_kills : forall s, ofn O FExp (ofn O FScale (oadd O s (onegbig O))) = o0 O.
+    (* H_mask_kills, with its domain of validity: only BOUNDED scores are killed by the additive mask *)
+    Variable bounded : R -> Prop.
+    Hypothesis H_mask_kills : forall s, bounded s -> ofn O FExp (ofn O FScale (oadd O s (onegbig O))) = o0 O.
 
     Lemma vsum_app_zeros : forall v k, vsum O (v ++ repeat (o0 O) k) = vsum O v.
     Proof.
@@ -1117,10 +1124,11 @@ Section Causality.
     (* the masked attention of column i over all columns = the unmasked attention over the prefix *)
     Lemma diam_head_out_prefix : forall n H d lq lk lv h i xj (pre suf : mat),
       h < H -> (forall x, length (lv x) = H * d) ->
+      (forall x y, bounded (dot O (head_slice d h (lq x)) (head_slice d h (lk y)))) ->
       length pre = S i -> length (pre ++ suf) = n ->
       diam_head_out O n d lq lk lv h i xj (pre ++ suf) = diam_head_prefix O d lq lk lv h xj pre.
     Proof.
-      intros n H d lq lk lv h i xj pre suf Hh Hlv Hpre Hn.
+      intros n H d lq lk lv h i xj pre suf Hh Hlv Hbd Hpre Hn.
       assert (Hi : i < n) by (rewrite app_length in Hn; lia).
       assert (Hsuf : length suf = n - S i) by (rewrite app_length in Hn; lia).
       unfold diam_head_out, diam_head_prefix.
@@ -1130,7 +1138,7 @@ Section Causality.
       rewrite zipw_app by (rewrite map_length, repeat_length; assumption).
       rewrite !zipw_repeat_r by (rewrite map_length; lia). rewrite !map_map.
       rewrite softmax_app_masked
-        by (intros x Hx; apply in_map_iff in Hx; destruct Hx as (xl & <- & _); apply H_mask_kills).
+        by (intros x Hx; apply in_map_iff in Hx; destruct Hx as (xl & <- & _); apply H_mask_kills; apply Hbd).
       unfold lincomb. rewrite zipw_app by (unfold softmax; rewrite !map_length; reflexivity).
       rewrite map_length, zipw_repeat_l by (rewrite map_length; lia). rewrite map_map.
       rewrite (map_const_in (fun x => vscale O (o0 O) (v x)) (vzeros O d) suf).
@@ -1139,11 +1147,13 @@ Section Causality.
     Qed.
 
     Theorem excel_conv_causal : forall n H d norm1 lq lk lv lout norm2 a1 a2 (row : mat) i,
-      0 < H -> (forall x, length (lv x) = H * d) -> length row = n -> i < n ->
+      0 < H -> (forall x, length (lv x) = H * d) ->
+      (forall h x y, bounded (dot O (head_slice d h (lq x)) (head_slice d h (lk y)))) ->
+      length row = n -> i < n ->
       nth_error (excel_conv_core_row O n H d norm1 lq lk lv lout norm2 a1 a2 row) i =
       excel_col_prefix O H d norm1 lq lk lv lout norm2 a1 a2 (firstn (S i) row) i.
     Proof.
-      intros n H d norm1 lq lk lv lout norm2 a1 a2 row i HH Hlv Hn Hi.
+      intros n H d norm1 lq lk lv lout norm2 a1 a2 row i HH Hlv Hbd Hn Hi.
       unfold excel_conv_core_row, excel_col_prefix.
       rewrite <- firstn_map. set (xs := map norm1 row).
       assert (Hxs : length xs = n) by (unfold xs; rewrite map_length; assumption).
@@ -1160,7 +1170,7 @@ Section Causality.
         { rewrite nth_error_map, nth_error_combine', Exi, nth_error_seq' by assumption.
           cbn [option_map fst snd Nat.add]. f_equal. apply flat_map_ext'. intros h Hh. apply in_seq in Hh.
           rewrite <- (firstn_skipn (S i) xs) at 1.
-          apply (diam_head_out_prefix n H d); [lia | assumption | rewrite firstn_length; lia |].
+          apply (diam_head_out_prefix n H d); [lia | assumption | apply Hbd | rewrite firstn_length; lia |].
           rewrite firstn_skipn. assumption. }
         destruct lout; [rewrite nth_error_map, E|]; [reflexivity | exact E]. }
       rewrite Ed. cbn [option_map]. reflexivity.
@@ -1168,7 +1178,9 @@ Section Causality.
 
     (* the reading the property text gives: columns after i do not matter *)
     Corollary excel_conv_suffix_independent : forall n H d norm1 lq lk lv lout norm2 a1 a2 (row row' : mat) i,
-      0 < H -> (forall x, length (lv x) = H * d) -> length row = n -> length row' = n -> i < n ->
+      0 < H -> (forall x, length (lv x) = H * d) ->
+      (forall h x y, bounded (dot O (head_slice d h (lq x)) (head_slice d h (lk y)))) ->
+      length row = n -> length row' = n -> i < n ->
       firstn (S i) row = firstn (S i) row' ->
       nth_error (excel_conv_core_row O n H d norm1 lq lk lv lout norm2 a1 a2 row) i =
       nth_error (excel_conv_core_row O n H d norm1 lq lk lv lout norm2 a1 a2 row') i.
